@@ -428,3 +428,25 @@ func stepIncr(mask int) {
 		verifAssert(k.sameXattrs(k.pre, post), "body-only write to a live document leaves its xattrs intact")
 	}
 }
+
+// C05: PurgeTombstones removes exactly the tombstones (of every collection) and reports their count.
+func Harness_C05_purge() {
+	env := verifWorld(true, 2, 3)
+	db := env.db
+	var pre []verifDoc
+	var tomb []bool
+	for i := 0; i < verifDocSlots(db); i++ {
+		d := verifDocSlot(db, i)
+		pre = append(pre, d)
+		tomb = append(tomb, verifAnd(d.Present, d.Value == nil))
+	}
+	n, err := env.b.PurgeTombstones()
+	verifAssert(err == nil, "purge succeeds")
+	verifAssert(int(n) == verifCount(tomb...), "PurgeTombstones reports the number of tombstones")
+	for i, p := range pre {
+		post := verifGetDoc(db, p.Coll, p.Key)
+		verifAssert(verifImplies(tomb[i], !post.Present), "every tombstone is removed, with or without xattrs, in every collection")
+		verifAssert(verifImplies(verifAnd(p.Present, p.Value != nil), verifAnd(post.Present, verifBytesEq(post.Value, p.Value), post.Cas == p.Cas, verifBytesEq(post.Xattrs, p.Xattrs))), "no live document is touched by a purge")
+	}
+	verifReach("done")
+}
